@@ -41,7 +41,27 @@ theorem stage_scrub (T q i : String) (d : List (String × J))
 
 /-- **Stage 5 — the pipeline**: for every member of the family and every downstream that answers
     the two sub-requests with `A`'s and `B`'s shares, the gateway model returns the object under `q`
-    with `A`'s answers followed by `B`'s — helper id removed, no errors. -/
+    with `A`'s answers followed by `B`'s — helper id removed, no errors — having made exactly the
+    calls `callsOf`. -/
+theorem stage_gateway_calls (h : Fam c A B T q fs) (down : Downstream) (i : String) (a b : List (String × J))
+    (hq1 : '#' ∉ q.toList) (hq2 : ':' ∉ q.toList) (hqne : q.toList ≠ []) (hine : i ≠ "")
+    (hA : down A [rqOf c (rootStep A B T q fs) []] = .ok [respA q i a])
+    (hB : fsB fs ≠ [] → down B [rqOf c (stepB B T q (fsB fs)) [("id", .str i)]] = .ok [[("node", .obj b)]])
+    (hb0 : fsB fs = [] → b = [])
+    (hbnd : (J.keys b).Nodup) (hdisj : ∀ k ∈ J.keys b, k ∉ J.keys (("id", J.str i) :: a))
+    (hid : "id" ∉ J.keys (a ++ b)) (htn : "__typename" ∉ J.keys (a ++ b)) (hne : a ++ b ≠ []) :
+    gateway c {} ⟨.query, "", [], [Q T q fs]⟩ none down
+      = .ok ⟨some [(q, .obj (a ++ b))], [], callsOf c A B T q fs i⟩ := by
+  have hex := stage_execute_calls h down i a b hq1 hq2 hqne hine hA hB hb0 hbnd hdisj
+  rw [gateway_noVarDefs _ _ _ _ _ _ rfl]
+  unfold gatewayCore gatewayCoreWith plan
+  simp only [stage_sanitize h, bind, Except.bind, stage_plan h]
+  have : rootStep A B T q fs = .mk A "Query" [Qown T q fs] [] (stepsB B T q (fsB fs)) := rfl
+  rw [← this, hex]
+  simp only [id, List.cons_append]
+  rw [stage_scrub T q i (a ++ b) hid htn hne]
+
+/-- **Stage 5 — the pipeline** (the calls left unnamed). -/
 theorem stage_gateway (h : Fam c A B T q fs) (down : Downstream) (i : String) (a b : List (String × J))
     (hq1 : '#' ∉ q.toList) (hq2 : ':' ∉ q.toList) (hqne : q.toList ≠ []) (hine : i ≠ "")
     (hA : down A [rqOf c (rootStep A B T q fs) []] = .ok [respA q i a])
@@ -50,15 +70,7 @@ theorem stage_gateway (h : Fam c A B T q fs) (down : Downstream) (i : String) (a
     (hbnd : (J.keys b).Nodup) (hdisj : ∀ k ∈ J.keys b, k ∉ J.keys (("id", J.str i) :: a))
     (hid : "id" ∉ J.keys (a ++ b)) (htn : "__typename" ∉ J.keys (a ++ b)) (hne : a ++ b ≠ []) :
     ∃ calls, gateway c {} ⟨.query, "", [], [Q T q fs]⟩ none down
-      = .ok ⟨some [(q, .obj (a ++ b))], [], calls⟩ := by
-  obtain ⟨calls, hex⟩ := stage_execute h down i a b hq1 hq2 hqne hine hA hB hb0 hbnd hdisj
-  refine ⟨calls, ?_⟩
-  rw [gateway_noVarDefs _ _ _ _ _ _ rfl]
-  unfold gatewayCore gatewayCoreWith plan
-  simp only [stage_sanitize h, bind, Except.bind, stage_plan h]
-  have : rootStep A B T q fs = .mk A "Query" [Qown T q fs] [] (stepsB B T q (fsB fs)) := rfl
-  rw [← this, hex]
-  simp only [id, List.cons_append]
-  rw [stage_scrub T q i (a ++ b) hid htn hne]
+      = .ok ⟨some [(q, .obj (a ++ b))], [], calls⟩ :=
+  ⟨_, stage_gateway_calls h down i a b hq1 hq2 hqne hine hA hB hb0 hbnd hdisj hid htn hne⟩
 
 end PebblesVerif.Flat
